@@ -203,6 +203,25 @@ func Table() map[string]*Property {
 		Note:    "generator-level no-panic and error-propagation obligations plus the text-level obligations of the emitted code; the open findings shared with C01 (emitted code that does not parse or type-check although goderive exits 0) are listed as known findings",
 	})
 	add(&Property{
+		ID: "C08",
+		Groups: []Group{
+			{Layer: "D", Pkg: "derive", Funcs: []string{"derive.typesMap.nameOf"}, DropAxioms: []string{"EqIsEquivalence"}},
+			{Layer: "D", Pkg: "derive", Funcs: []string{"derive.pkg.Done", "derive.printer.WriteTo"}},
+			{Layer: "D", Pkg: "derive", Ghost: fsGhost, Funcs: []string{"derive.union", "derive.sortPlugins"}},
+		},
+		Extra: func(ctx *Ctx) ([]driver.ObResult, error) {
+			return nondetSources(ctx, map[string]bool{"derive.union": true, "derive.pkg.Done": true, "derive.printer.WriteTo": true, "derive.typesMap.nameOf": true}), nil
+		},
+		Assumptions: []string{
+			"PARTIAL. Decided: (1) frame: the generator's own code (derive, plugin/*, main; strings of emitted code are not generator code) has no source of nondeterminism other than four range loops over Go maps, no go/select statements, no calls into math/rand, time.Now, os.Getenv and the like, and assigns no package-level variable (nothing carries over from one package of an invocation to the next) - a go/ast + go/types scan, rerun on every check; (2) each of the four loops is under a contract that makes its result independent of the iteration order: union (a set), pkg.Done (a conjunction), printer.WriteTo (paths holds every imported path once, sorted, and pathToQual is the inverse of imports, given one alias per path), typesMap.nameOf (at most one table entry matches); sortPlugins yields the unique order of distinct prefixes (C12)",
+			"nameOf's clause needs assignability to be symmetric and transitive on the table, which it is not when named and unnamed types are mutually assignable: the axiom EqIsEquivalence (assumed under C11, whose quantifier excludes such types) is NOT assumed here; the obligation fails and is a known finding with a witness that reproduces on the real binary",
+			"NOT decided: determinism of go/packages, go/types, go/format and the order of directory listings (newFileInfos); that plugins register one alias per import path (printer.NewImport) is an assumption; independence of how a package is addressed (relative path, pattern, import path) goes through the loader",
+			"by A-det (Go semantics): code without these sources is a deterministic function of its inputs",
+		},
+		Trusted: []string{"sort.Strings / sort.Slice: rearrangement without inversions that keeps distinct elements distinct; the sorted arrangement of distinct strings is unique (L-sorted)", "gvc VC generator; SMT solvers; go/ast, go/types"},
+		Note:    "frame scan over all generator packages plus order-independence contracts for the map-range loops",
+	})
+	add(&Property{
 		ID:     "C05",
 		Groups: []Group{{Layer: "O", Funcs: []string{"deepcopy.gen.genField", "deepcopy.gen.genFunc", "clone.gen.genFuncFor"}, Only: semantic}},
 		Assumptions: append([]string{
